@@ -1,4 +1,5 @@
 import Fzf.Lemmas.Subseq
+import Fzf.Lemmas.Prefilter
 import Fzf.Lemmas.Prog
 import Fzf.Generated.Consts
 /-
@@ -54,7 +55,104 @@ theorem C02_checked_ok_imp_no_panic {α : Type} (p : Prog α) (m₁ m₂ : Array
     (hag : Prog.Agree m₁ m₂ w) (hc : p.runChk m₁ w = .ok r) : ∃ r', p.runRaw m₂ = .ok r' :=
   ⟨r, Prog.checked_ok_imp_raw p m₁ m₂ w r hag hc⟩
 
+/-- **PrefixMatch (`^term`) is total, sound and complete**: for every text and every non-empty
+    term it returns; it reports a match exactly when the term occurs, character by character
+    after case folding / normalisation, right after the leading whitespace of the line (the
+    whitespace is kept when the term itself starts with whitespace); the reported range is that
+    occurrence. -/
+theorem C02_prefix_exact (cfg : Cfg) (cs norm : Bool) (t p : Text) (hp : 0 < p.size) :
+    ∃ r, prefixMatch cfg cs norm t p = .ok r ∧
+      (0 ≤ r.start ↔ OccAt (fun c pc => foldTL cfg cs norm c == pc) t p
+        (if !cfg.U.isSpace (p.getD 0 0) then leadingWhitespaces cfg t else 0)) ∧
+      (0 ≤ r.start → r.start = ((if !cfg.U.isSpace (p.getD 0 0) then leadingWhitespaces cfg t else 0 : Nat) : Int) ∧
+        r.stop = r.start + p.size) :=
+  prefixMatch_spec cfg cs norm t p hp
+
+/-- **SuffixMatch (`term$`) is total, sound and complete** (occurrence right before the trailing
+    whitespace, kept when the term ends with whitespace). -/
+theorem C02_suffix_exact (cfg : Cfg) (cs norm : Bool) (t p : Text) (hp : 0 < p.size) :
+    ∃ r, suffixMatch cfg cs norm t p = .ok r ∧
+      (0 ≤ r.start ↔ p.size ≤ suffixEnd cfg t p ∧
+        OccAt (fun c pc => foldTL cfg cs norm c == pc) t p (suffixEnd cfg t p - p.size)) ∧
+      (0 ≤ r.start → r.start = ((suffixEnd cfg t p - p.size : Nat) : Int) ∧ r.stop = (suffixEnd cfg t p : Int)) :=
+  suffixMatch_spec cfg cs norm t p hp
+
+/-- **EqualMatch (`^term$`) is total, sound and complete**: a match exactly when the line without
+    its leading and trailing whitespace has the length of the term and agrees with it. -/
+theorem C02_equal_exact (cfg : Cfg) (cs norm : Bool) (t p : Text) (hp : 0 < p.size) :
+    ∃ r, equalMatch cfg cs norm t p = .ok r ∧
+      (0 ≤ r.start ↔
+        (t.size : Int) - (if !cfg.U.isSpace (p.getD 0 0) then leadingWhitespaces cfg t else 0 : Nat) -
+          (if !cfg.U.isSpace (p.getD (p.size - 1) 0) then trailingWhitespaces cfg t else 0 : Nat) = p.size ∧
+        OccAt (equalOk cfg cs norm) t p (if !cfg.U.isSpace (p.getD 0 0) then leadingWhitespaces cfg t else 0)) ∧
+      (0 ≤ r.start → r.start = ((if !cfg.U.isSpace (p.getD 0 0) then leadingWhitespaces cfg t else 0 : Nat) : Int) ∧
+        r.stop = r.start + p.size) :=
+  equalMatch_spec cfg cs norm t p hp
+
+/-- The comparison loops and the scoring walk of these matchers never index out of range: on a
+    range inside the text that is not longer than the term, `calculateScore` returns. -/
+theorem C02_calculateScore_total (cfg : Cfg) (cs norm : Bool) (t p : Text) (sidx eidx : Nat) (withPos : Bool)
+    (h1 : eidx ≤ t.size) (h2 : eidx - sidx ≤ p.size) (h3 : sidx ≤ eidx) :
+    ∃ r, calculateScore cfg cs norm t p sidx eidx withPos = .ok r :=
+  calculateScore_ok cfg cs norm t p sidx eidx withPos h1 h2 h3
+
+/-- Normalisation leaves ASCII alone, whatever the (regenerated) table holds. -/
+theorem C02_normalize_ascii (tbl : List (Nat × Nat)) (c : Nat) (h : c < 128) : normalizeRune tbl c = c := by
+  unfold normalizeRune
+  rw [if_pos (Or.inl (by omega))]
+
+/-- **The ASCII pre-filter never loses a match**: a text rejected by `asciiFuzzyIndex` (used by the
+    fuzzy and exact matchers before the real work) does not contain the pattern as a
+    subsequence of its folded characters. `isBytes` = the text is all ASCII. -/
+theorem C02_prefilter_sound (cfg : Cfg) (cs norm : Bool) (t p : Text) (isBytes : Bool)
+    (hascii : isBytes = true → ∀ c ∈ t.toList, c < 128) (hnorm : ∀ c, c < 128 → cfg.norm c = c)
+    (h : asciiFuzzyIndex t isBytes p cs = none) :
+    ¬ List.Sublist p.toList (t.toList.map (foldRune cfg cs norm)) :=
+  asciiFuzzyIndex_none_sound cfg cs norm t p isBytes hascii hnorm h
+
+/-- **FuzzyMatchV1 is sound and complete**: whenever it returns, it reports a match exactly when
+    the pattern is a subsequence of the folded text — in both scan directions, for byte and rune
+    representation, through the ASCII pre-filter. (That it always returns is established per case
+    by the correspondence; the forward scan itself is proved total in `v1Forward_spec`.) -/
+theorem C02_v1_sound_complete (cfg : Cfg) (cs norm fwd : Bool) (t : Text) (isBytes : Bool) (p : Text) (withPos : Bool)
+    (r : Res) (hp : 0 < p.size)
+    (hascii : isBytes = true → ∀ c ∈ t.toList, c < 128) (hnorm : ∀ c, c < 128 → cfg.norm c = c)
+    (h : fuzzyMatchV1 cfg cs norm fwd t isBytes p withPos = .ok r) :
+    (0 ≤ r.start ↔ List.Sublist p.toList (t.toList.map (foldRune cfg cs norm))) := by
+  cases hpre : asciiFuzzyIndex t isBytes p cs with
+  | some mm =>
+    exact fuzzyMatchV1_decides cfg cs norm fwd t isBytes p withPos r hp (by simp [hpre]) h
+  | none =>
+    have hno := asciiFuzzyIndex_none_sound cfg cs norm t p isBytes hascii hnorm hpre
+    unfold fuzzyMatchV1 at h
+    have hp0 : (p.size == 0) = false := by
+      have : p.size ≠ 0 := by omega
+      simpa using this
+    simp only [hp0, hpre, Option.isNone_none, Bool.false_eq_true, if_false, if_true] at h
+    cases h
+    constructor
+    · intro h0; simp [Res.none] at h0
+    · intro hs; exact absurd hs hno
+
+/-- The forward scan of V1 never indexes out of range and is the greedy subsequence test. -/
+theorem C02_v1_forward_total (cfg : Cfg) (cs norm fwd : Bool) (t p : Text) (hp : 0 < p.size) :
+    ∃ r, v1Forward cfg cs norm fwd t p (List.range t.size) 0 Option.none = .ok r ∧
+      (r.2.2.isSome = true ↔ List.Sublist p.toList (t.toList.map (foldRune cfg cs norm))) := by
+  obtain ⟨r, hr, hsub⟩ := v1Forward_spec cfg cs norm fwd t p (List.range t.size) 0 Option.none
+    (by intro i hi; simpa using hi) hp
+  refine ⟨r, hr, ?_⟩
+  rw [hsub, scanChars_range, patFrom_zero, Spec.isSubseq_iff]
+  cases fwd
+  · simp only [Bool.false_eq_true, if_false]; exact List.reverse_sublist
+  · simp only [if_true]
+
 example : Spec.isSubseq [97, 98] [120, 97, 45, 98] = true := by decide
 example : Spec.isWitness #[120, 97, 45, 98] [97, 98] [1, 3] 1 4 = true := by decide
+-- non-vacuity of the occurrence predicates: "  foo bar" starts with "foo" after its leading blanks
+example : OccAt (fun c pc => c == pc) #[32, 32, 102, 111, 111, 32, 98, 97, 114] #[102, 111, 111] 2 := by
+  refine ⟨by decide, ?_⟩
+  intro i hi
+  have : i = 0 ∨ i = 1 ∨ i = 2 := by simp at hi; omega
+  rcases this with h | h | h <;> subst h <;> decide
 
 end Fzf.Props.C02
